@@ -8,7 +8,8 @@ from propbase import StreamProperty
 RULE = ("pipelines of 1-5 history-stamping steps (NumPy ufuncs and reductions, processing functions) on objects whose "
         "pre-existing history has 0-12 entries; after every step the output history must start with the input's "
         "(deep-equal, in order), add >=1 well-formed entry, and leave the input's untouched; non-trivial = pre-existing "
-        "history non-empty and pipeline length >=2; distinct by canonical stream")
+        "history non-empty and pipeline length >=2; distinct by canonical stream; plus every processing function of the registry on "
+        "its own (1-D, 2-D with the dimension first / last, 3-D; empty and 2-entry history)")
 
 
 def proc_step(rng, cur, o, dims, a):
@@ -69,4 +70,73 @@ def streams(tier, seed):
 
 P = StreamProperty("C11", [HistoryOracle], streams, RULE, ("C11",),
                    lambda ops: len(ops[0].get("hist", [])) >= 1 and len(ops) >= 3)
-run, replay = P.run, P.replay
+replay = P.replay
+
+# every function of dnplab.processing (and the NumPy entry points) that returns a data object, by registry name of C03
+PROCESSING = {"apodize", "fourier_transform", "inverse_fourier_transform", "phase", "phase_cycle", "phase_cycle-array", "phase-array-p1",
+              "autophase", "integrate", "integrate-regions", "integrate-regions-kept", "cumulative_integrate", "remove_background",
+              "remove_background-regions", "left_shift", "normalize", "normalize-dim", "smooth", "interp", "interp-list", "ndalign",
+              "average", "signal_to_noise", "reference", "pseudo_modulation", "create_complex-arrays", "create_complex-kept",
+              "np.abs", "np.max-axis"}
+
+
+def registry_history(tier, seed):
+    """each processing function on its own: 1-D, 2-D (dimension first / last) and 3-D inputs, empty and non-empty history"""
+    import numpy as np, dnplab as dnp, warnings, io, contextlib, copy
+    from props.C03 import _registry
+    from oracles import _eq
+    rng = random.Random(seed * 7919 + 111)
+    fails, n_eval, seen_fn = [], 0, set()
+    shapes = [([8], 0), ([3, 8], 1), ([8, 2], 0)] + ([([2, 8, 3], 1)] if tier == "thorough" else [([2, 8, 3], 1)])
+    for shape, k in shapes:
+        for nh in (0, 2):
+            for name, fn, _ in _registry(rng):
+                if name not in PROCESSING:
+                    continue
+                dims = ["t2" if i == k else ("Average" if i == 0 else "x%d" % i) for i in range(len(shape))]
+                if name.startswith("inverse"):
+                    dims = [("f2" if d == "t2" else d) for d in dims]
+                vals = (np.arange(1, int(np.prod(shape)) + 1, dtype=float).reshape(shape) ** 1.5) * np.exp(0.3j)
+                coords = [np.linspace(0.0, 2.0, s) if i == k else np.arange(s, dtype=float) for i, s in enumerate(shape)]
+                hist = [("step%d" % j, {"p": [1, j], "q": np.arange(3.0)}) for j in range(nh)]
+                d = dnp.DNPData(vals, list(dims), coords, proc_attrs=copy.deepcopy(hist))
+                res = None
+                with warnings.catch_warnings():
+                    warnings.simplefilter("ignore")
+                    with contextlib.redirect_stdout(io.StringIO()):
+                        try:
+                            res = fn(d, dims[k])
+                        except Exception:  # noqa: BLE001
+                            res = None
+                n_eval += 1
+                if not isinstance(res, dnp.DNPData):
+                    continue
+                seen_fn.add(name)
+                h = list(res.proc_attrs)
+                key = None
+                if not _eq(list(d.proc_attrs), hist):
+                    key = "C11:input-history-altered:" + name
+                elif not _eq(h[:nh], hist):
+                    key = "C11:prefix-lost:" + name
+                elif len(h) <= nh:
+                    key = "C11:no-new-entry:" + name
+                else:
+                    ent = h[nh]
+                    if not (isinstance(ent, tuple) and len(ent) == 2 and isinstance(ent[0], str) and ent[0] and isinstance(ent[1], dict)):
+                        key = "C11:malformed-entry:" + name
+                if key:
+                    fails.append({"key": key, "clause": key, "ops": [{"function": name, "shape": shape, "dim_pos": k, "history_entries": nh}]})
+    return fails, n_eval, sorted(seen_fn)
+
+
+def run(tier, seed, escalate=False):
+    res = P.run(tier, seed, escalate)
+    fails, n_eval, fns = registry_history("thorough" if escalate else tier, seed)
+    seen = {f["key"] for f in res["impl_failures"]}
+    for f in fails:
+        if f["key"] not in seen:
+            seen.add(f["key"]); res["impl_failures"].append(f)
+    res["evaluations"] += n_eval
+    res["distribution"]["registry_calls"] = n_eval
+    res["distribution"]["registry_functions_returning_objects"] = fns
+    return res
